@@ -7,8 +7,8 @@ CONSTANTS Versions, NameLens, BatchLens, ClientIdLens, TxnIdLens, MaxTopics, Max
 (* ---------------- all small requests ---------------- *)
 SeqsUpTo(S, n) == UNION {[1..k -> S] : k \in 1..n}
 TopicSet == {[name |-> nl, parts |-> ps] : nl \in NameLens, ps \in SeqsUpTo(BatchLens, MaxParts)}
-Ok(v, cid, txn, ts) == Accounted(v, cid, txn, ts) >= Actual(v, cid, txn, ts)
-       \/ ~PrintT(<<"UNSAFE", [version |-> v, clientId |-> cid, txnId |-> txn, topics |-> ts, accounted |-> Accounted(v, cid, txn, ts), actual |-> Actual(v, cid, txn, ts)]>>)
+Ok(v, cid, txn, ts) == (Accounted(v, cid, txn, ts) >= Actual(v, cid, txn, ts) /\ AccountedUnknown(cid, txn, ts) >= Actual(v, cid, txn, ts))
+       \/ ~PrintT(<<"UNSAFE", [version |-> v, clientId |-> cid, txnId |-> txn, topics |-> ts, accounted |-> Accounted(v, cid, txn, ts), accountedUnknown |-> AccountedUnknown(cid, txn, ts), actual |-> Actual(v, cid, txn, ts)]>>)
 Safe == /\ \A v \in Versions, cid \in ClientIdLens, txn \in TxnIdLens, t1 \in TopicSet : Ok(v, cid, txn, <<t1>>)
         /\ (MaxTopics >= 2 => \A v \in Versions, cid \in ClientIdLens, txn \in TxnIdLens, t1 \in TopicSet, t2 \in TopicSet : Ok(v, cid, txn, <<t1, t2>>))
 NRequests == Cardinality(Versions) * Cardinality(ClientIdLens) * Cardinality(TxnIdLens) * (Cardinality(TopicSet) + (IF MaxTopics >= 2 THEN Cardinality(TopicSet) * Cardinality(TopicSet) ELSE 0))
